@@ -470,6 +470,7 @@ static void run_case(long id, uint64_t seed)
 	for (i = 0; i < nposters; i++)
 		pthread_join(posters[i].th, NULL);
 	mt_join_loops();
+	mt_check_thread_fds(g_method);
 
 	if (n_thr_created != n_thr_joined + n_thr_detached)
 		mon_viol("C13", "thread-not-joined", g_method, "%ld threads created, %ld joined, %ld detached", (long)n_thr_created, (long)n_thr_joined, (long)n_thr_detached);
